@@ -6,7 +6,8 @@
 (* (keyper/database/sql/queries/keyper.sql).                               *)
 (*                                                                         *)
 (* A share MESSAGE names its sender (keyper index) and carries 1..2 share  *)
-(* items [id, kind]; the kinds are the share tokens of EpochKG.tla.        *)
+(* items [id, kind]; the kinds are the share tokens of EpochKG.tla plus    *)
+(* "swap" (the sender's valid share for the OTHER identity of the message).*)
 (* libp2p runs ValidateMessage first and HandleMessage only on Accept; the *)
 (* step operator Step mirrors exactly that.                                *)
 (*                                                                         *)
@@ -22,8 +23,13 @@ CONSTANT IdOrder       \* the identities in bytewise order of their preimages (b
 Rank(id) == CHOOSE k \in DOMAIN IdOrder : IdOrder[k] = id
 
 ShareItems == [id : Idents, kind : ShareKinds]
+(* at most one non-valid share per message, plus the two-share messages whose shares are BOTH
+   "swap": the sender's valid shares of the two identities of the message attached crosswise (each
+   share fails the pairing check; their sum matches the sum of the epoch ids).  A "swap" share in a
+   message that names no other identity is the same object as "otherId". *)
 ShareSeqs == {q \in UNION {[1..n -> ShareItems] : n \in 1..2} :
-                 Cardinality({i \in DOMAIN q : q[i].kind # "valid"}) <= 1}
+                 \/ Cardinality({i \in DOMAIN q : q[i].kind # "valid"}) <= 1
+                 \/ \A i \in DOMAIN q : q[i].kind = "swap"}
 Msgs == [s : Senders, shares : ShareSeqs]
 
 MsgIds(m) == [i \in DOMAIN m.shares |-> m.shares[i].id]
